@@ -288,6 +288,21 @@ def assignType (k : Nat) (_d : Doc) : Option Doc :=
   | 10 => some null
   | _ => none
 
+/-- `Value{ValueType::Object, n}` / `Value{ValueType::Array, n}` (Value.hpp:117-134): an empty container with
+room reserved (`HashTable::Reserve` → `allocate(n)`; the array's capacity is not observable here). -/
+def reservedDoc (k n : Nat) : Option Doc :=
+  match k with
+  | 2 => some (obj (if n = 0 then 0 else allocCap n) [])
+  | 3 => some (arr [])
+  | _ => none
+
+/-- `GetObject()->Clear()` / `GetArray()->Clear()` (HashTable.hpp:250-259, Array.hpp:194-198): every item is
+disposed, the capacity stays. -/
+def clearDoc : Doc → Doc
+  | obj c _ => obj c []
+  | arr _ => arr []
+  | d => d
+
 /-! ### Pointer resolution -/
 
 def envGet (env : Env) (r : Nat) : Doc :=
